@@ -19,10 +19,11 @@ import (
 func init() {
 	register(&Prop{
 		ID: "C08", Level: "exploration", Quick: 62000, Thorough: 137728 + 4000000,
-		Rule: "two trial families: (grid) bounded-exhaustive supplies 0..3 per bin x requested sizes 0..3 per bin or --size-total 0..12 x --no-fill (137728 combinations; thorough tier: all of them, quick tier: a seeded sample of 2000), each realised as an alignment with exactly that many candidate targets per bin at varying distances and pushed through the real pipeline; (generated) random references/queries/targets with shared SNPs, multiple hits and ambiguity tracts x every option combination (--size-*, --no-fill, --dist-*, --dist-push, --threshold-pair, --threshold-target, --ignore, --table) under seeded schedules with NumCPU in {1..16}; non-trivial = at least two bins non-empty for some query, or a threshold/ignore/limit excluded a target; distinct = distinct (inputs, options)",
-		Gen:   genC08,
-		Check: checkC08,
-		Required: []string{"fill_made_up_shortfall", "threshold_pair_excluded", "threshold_target_excluded", "dist_limit_excluded", "ignored_target", "bin_capped_at_total", "out_of_order_arrival"},
+		Rule:          "two trial families: (grid) bounded-exhaustive supplies 0..3 per bin x requested sizes 0..3 per bin or --size-total 0..12 x --no-fill (137728 combinations; thorough tier: all of them, quick tier: a seeded sample of 2000), each realised as an alignment with exactly that many candidate targets per bin at varying distances and pushed through the real pipeline; (generated) random references/queries/targets with shared SNPs, multiple hits and ambiguity tracts x every option combination (--size-*, --no-fill, --dist-*, --dist-push, --threshold-pair, --threshold-target, --ignore, --table) under seeded schedules with NumCPU in {1..16}; non-trivial = at least two bins non-empty for some query, or a threshold/ignore/limit excluded a target; distinct = distinct (inputs, options)",
+		ShrinkColumns: true,
+		Gen:           genC08,
+		Check:         checkC08,
+		Required:      []string{"fill_made_up_shortfall", "threshold_pair_excluded", "threshold_target_excluded", "dist_limit_excluded", "ignored_target", "bin_capped_at_total", "out_of_order_arrival"},
 	})
 	exhaustiveNote["C08/thorough"] = "the 137728-point grid supplies(0..3)^4 x (sizes(0..3)^4 or size-total 0..12) x no-fill is enumerated completely (trials 0..137727)"
 	exhaustiveNote["C08/quick"] = "a seeded sample of 2000 points of the 137728-point grid; the thorough tier enumerates it completely"
